@@ -9,9 +9,22 @@ crypto_aesctr*.c take from the C text.
   crypto_aes.c         the two FIPS self-test vectors; the call list of crypto_aes_key_free
   crypto_aesctr.c      the start value 0xff of pblk[15], allocation size expression, call list of
                        crypto_aesctr_free
-(The control flow of crypto_aesctr_shared.c / crypto_aesctr_aesni.c is modelled by hand and bound by the
-correspondence run; no shape is demanded of those functions here, so that a behaviour-preserving
-rewrite of them does not disturb the tie.)
+Third output file Repo_aes_arith.v: the BOOKKEEPING ARITHMETIC of the three CTR files as expression trees
+(see arithmetic() below and Crypto/AesCtrArith.v):
+  crypto_aesctr_shared.c   struct field types; cipherblock_generate (assert expression, pblk[K]++, the wrap
+                           condition, be64enc(pblk + off, e)); cipherblock_use (the statements after the byte
+                           loop: bytectr / *inbuf / *outbuf / *buflen updates, parameter types); pre_wholeblock
+                           (bytemod = .., both conditions, the (nbytes, bytemod) arguments of both use calls);
+                           post_wholeblock (condition, arguments)
+  crypto_aesctr.c          the portable loop: its condition and the arguments of its use call
+  crypto_aesctr_aesni.c    crypto_aesctr_aesni_stream's condition; wholeblocks: local types, prologue
+                           statements, loop body (be64enc, the __m128i statements as SVec, the scalar
+                           statements), loop condition, epilogue statements and the memcpy into pblk
+Integer literals keep the C type their spelling gives them (15U is a 32-bit unsigned, 15 an int, (size_t)15 a
+cast of an int); variables are numbered by role (parameters by position, locals by order of first assignment),
+so renaming a local or reordering declarations changes nothing.  The control skeleton of each function (which
+helper is called where) is matched against the expected shape; a statement or expression with no form is
+emitted as SUnknown / EUnknown, for which the model answers Fault - the proofs break, not the extraction.
 
 Second output file Repo_aes_sel.v: the IMPLEMENTATION SELECTION of the two modules as data, for the
 build configuration with CPUSUPPORT_X86_AESNI defined (the #if/#ifdef lines are evaluated here) and
@@ -719,6 +732,10 @@ def parse_block(text):
             return [("return", s[6:].strip())], j + 1
         if re.match(r"(?:const\s+|static\s+|volatile\s+)*(?:struct\s+\w+|__m128i|u?int\d+_t|size_t|ssize_t|unsigned|int|long|char|short)\b[\s\w*]*\b\w+\s*(?:\[[^\]]*\])?\s*(?:=.*)?$", s, flags=re.S) \
                 and not re.match(r"\w+\s*(?:[-+*/%&|^]|<<|>>)?=", s):
+            # `T name = init` is a declaration followed by the assignment `name = init`
+            dm = re.fullmatch(r"(.*?\b(\w+)\s*)=(?!=)(.*)", s, flags=re.S)
+            if dm and "[" not in dm.group(1):
+                return [("decl", dm.group(1).strip()), ("expr", "%s = %s" % (dm.group(2), dm.group(3).strip()))], j + 1
             return [("decl", s)], j + 1
         return [("expr", s)], j + 1
 
